@@ -10,6 +10,13 @@
 
   Theorems (every one an obligation, all for every event list / budget / quirk setting / history):
   * `gen_loop_shape`                 — what the proofs use of the generated constants
+  * `source_shape_rmcp`, `source_shape_ipmbdev`, `source_shape_aardvark`
+                                     — the five Python functions, re-read statement by statement from the
+                                       working tree (Gen/Loops04.lean), ARE the functions the step functions
+                                       of the models were written from (`Loops.Shape.*`, annotated there)
+  * `source_facts`                   — the same in words, read off the generated functions: the sequence
+                                       number is advanced by the first statement and nowhere else, `_q` is
+                                       read once and never written, one send per round
   * `attribution_sound_rmcp`         — ok d ⇒ d is the data of an intact reply to THIS request carried by a
                                        frame of `_q` or a received datagram (both variants, both quirks)
   * `queue_provenance_rmcp`          — whatever sits in `_q` after any history was carried by a received frame
@@ -45,6 +52,7 @@ sequence rule `(s + 1) % 64` on all three transports, `<=` in both RMCP loops, `
 ipmb-dev / Aardvark loop with at least one attempt and a positive timeout, bridged test on
 byte 5 against the Send Message command of the specification, returned slice `[6:-1]`. -/
 theorem gen_loop_shape :
+    Gen.Loops04.notExtracted = 0 ∧
     Gen.Loops04.rmcpSeqInc = 1 ∧ Gen.Loops04.rmcpSeqMod = 64 ∧
     Gen.Loops04.ipmbdevSeqInc = 1 ∧ Gen.Loops04.ipmbdevSeqMod = 64 ∧
     Gen.Loops04.aardvarkSeqInc = 1 ∧ Gen.Loops04.aardvarkSeqMod = 64 ∧
@@ -54,6 +62,44 @@ theorem gen_loop_shape :
     0 < Gen.Loops04.ipmbdevTimeoutTicks ∧ 0 < Gen.Loops04.aardvarkTimeoutTicks ∧
     Gen.Loops04.rmcpBridgeIdx = 5 ∧ Gen.Loops04.cmdSendMessage = cmdSendMessage ∧
     Gen.Loops04.rmcpDataLo = 6 ∧ Gen.Loops04.rmcpDataHi = 1 := by decide
+
+/-! ## The control flow of the three loops, as the source states it -/
+
+/-- `Rmcp._send_and_receive` of the working tree is, statement by statement, the function that
+`Loops.rmcpRequest` / `outer` / `inner` / `nextQ` / `nextSock` / `classify` mirror (intended
+variant: nothing is put back into `_q`): the sequence number is advanced before the header
+is built and before the retry loop, on every path; retry loop ⊃ send ⊃ receive loop; a frame
+that fails the filter is counted and dropped, a bare acknowledgement is skipped without
+counting, `socket.timeout` costs one retry, an exhausted budget raises RetryError; what is
+returned is a slice of a frame that passed `rx_filter`. -/
+theorem source_shape_rmcp : Gen.Loops04.rmcpSendAndReceive = Loops.Shape.rmcp := by decide
+
+/-- `IpmbDev._send_and_receive` and `IpmbDev._receive_raw` of the working tree are the functions
+`Loops.i2cRequest` / `i2cAttempts` / `recvRaw` (with `lenByte = true`) mirror. -/
+theorem source_shape_ipmbdev :
+    Gen.Loops04.ipmbdevSendAndReceive = Loops.Shape.ipmbdevSendAndReceive ∧
+    Gen.Loops04.ipmbdevReceiveRaw = Loops.Shape.ipmbdevReceiveRaw := by decide
+
+/-- `Aardvark._send_and_receive` and `Aardvark._receive_raw` likewise (`lenByte = false`). -/
+theorem source_shape_aardvark :
+    Gen.Loops04.aardvarkSendAndReceive = Loops.Shape.aardvarkSendAndReceive ∧
+    Gen.Loops04.aardvarkReceiveRaw = Loops.Shape.aardvarkReceiveRaw := by decide
+
+open PyIpmi.LoopAst in
+/-- Read off the GENERATED functions (not the expected ones): on each transport the first
+statement advances the sequence number and no other statement does; the RMCP loop takes
+from `_q` in one place, never puts anything into it, sends in one place and receives in
+one place; ipmb-dev / Aardvark send and receive in one place each. -/
+theorem source_facts :
+    (∀ f ∈ [Gen.Loops04.rmcpSendAndReceive, Gen.Loops04.ipmbdevSendAndReceive, Gen.Loops04.aardvarkSendAndReceive],
+      f.body.head? = some (.expr (.call (.attr .self_ .u_inc_sequence_number) .nil)) ∧
+      f.body.calls .u_inc_sequence_number = 1) ∧
+    Gen.Loops04.rmcpSendAndReceive.body.calls .get = 1 ∧
+    Gen.Loops04.rmcpSendAndReceive.body.calls .put = 0 ∧
+    Gen.Loops04.rmcpSendAndReceive.body.calls .u_send_ipmi_msg = 1 ∧
+    Gen.Loops04.rmcpSendAndReceive.body.calls .u_receive_ipmi_msg = 1 ∧
+    (∀ f ∈ [Gen.Loops04.ipmbdevSendAndReceive, Gen.Loops04.aardvarkSendAndReceive],
+      f.body.calls .u_send_raw = 1 ∧ f.body.calls .u_receive_raw = 1) := by decide
 
 /-! ## Attribution -/
 
